@@ -58,7 +58,14 @@ Inductive case :=
   (** dnsutils.ReadMsgFromTCP (frame reader + unpacking, what ServeTCP and the DoQ server use) on one frame
       whose payload is [gen_bytes n seed], mostly garbage: [parses] is what the DNS library itself says about
       these bytes; observed 0 a message came back, 1 an error, 2 a panic *)
-| CUnpack (n seed : N) (parses : bool) (res : N).
+| CUnpack (n seed : N) (parses : bool) (res : N)
+  (** the DoQ client (transport.NewQuicDnsConn over an in-memory quic stream): the caller's query is
+      [qid/256; qid mod 256] ++ gen_bytes qn qseed; the peer's reply stream is [gs] cut into reads of [sizes]
+      ([SFail] = the stream is reset / the read deadline passes; end of [gs] = FIN). Observed: [sent] = number of
+      Write calls, number of bytes and checksum of what went out on the stream, and whether the FIN followed;
+      [ret] = (id, length, checksum of everything after the id) of the returned message; [err] = error class, 0 = none *)
+| CDoq (qid qn qseed : N) (gs : list seg) (sizes : list nat)
+       (sent : N * N * N) (fin : bool) (ret : option (N * N * N)) (err : N).
 
 Definition pair_eqb (a b : N * N) : bool := (fst a =? fst b) && (snd a =? snd b).
 Definition triple_eqb (a b : N * N * N) : bool :=
@@ -73,6 +80,22 @@ Definition model_write (n seed : N) : option (N * N) :=
   match frame (gen_bytes n seed) with
   | Some f => Some (len f, checksum f)
   | None => None
+  end.
+
+(** The DoQ client: the query goes out as ONE frame with the id zeroed, then FIN; the reply is the first frame
+    of the stream as the shared reader reads it, with the caller's id put back; a reader error is the call's error. *)
+Definition doq_sent (qn qseed : N) : N * N * N :=
+  let f := enc_len (qn + 2) ++ 0 :: 0 :: gen_bytes qn qseed in (1, len f, checksum f).
+Definition model_doq (qid : N) (gs : list seg) (sizes : list nat) : option (N * N * N) * N :=
+  match fst (read_frame (build_stream (S (length gs)) sizes gs)) with
+  | Ok m => (Some (qid, len m, checksum (skipn 2 m)), 0)
+  | Er e => (None, err_code e)
+  end.
+Definition ret_eqb (a b : option (N * N * N)) : bool :=
+  match a, b with
+  | Some x, Some y => triple_eqb x y
+  | None, None => true
+  | _, _ => false
   end.
 
 (** insertion sort on the id for the permutation comparison *)
@@ -104,6 +127,10 @@ Definition agree (c : case) : bool :=
     list_eqb triple_eqb (sort3 expected) (sort3 observed) && (mw =? 1)
   | CUnpack n seed parses res =>
     if (min_frame_len <=? n) && (n <=? 65535) && parses then res =? 0 else res =? 1
+  | CDoq qid qn qseed gs sizes sent fin ret err =>
+    let '(r, e) := model_doq qid gs sizes in
+    (qn + 2 <=? max_msg_size_copy) && triple_eqb sent (doq_sent qn qseed) && fin
+    && ret_eqb r ret && (e =? err)
   end.
 
 (** The property's own oracle, stated without the reader model where that is
@@ -154,6 +181,18 @@ Definition spec (c : case) : bool :=
   | CUnpack n seed parses res =>
     (* garbage yields an error, never a panic; what the library can parse comes back *)
     negb (res =? 2) && (if (13 <=? n) && (n <=? 65535) && parses then res =? 0 else res =? 1)
+  | CDoq qid qn qseed gs sizes sent fin ret err =>
+    (* stated on the bytes the stream delivers before it ends or fails, whatever the reads look like: when a
+       whole frame announcing 13..65535 bytes arrived, exactly its bytes come back under the caller's id and there
+       is no error; a stream that ends or fails before that, or announces less than 13, is an error and no
+       message (a panic is reported by the driver as a violation). The query went out as one write of
+       length ++ message with id 0, followed by FIN. *)
+    let d := flat (build_stream (S (length gs)) sizes gs) in
+    let l := dec_len d in
+    triple_eqb sent (1, qn + 4, checksum ([(qn + 2) / 256; (qn + 2) mod 256; 0; 0] ++ gen_bytes qn qseed)) && fin
+    && (if (2 <=? len d) && (13 <=? l) && (l + 2 <=? len d)
+        then ret_eqb ret (Some (qid, l, checksum (firstn (N.to_nat (l - 2)) (skipn 4 d)))) && (err =? 0)
+        else ret_eqb ret None && negb (err =? 0))
   end.
 
 (** A case is non-trivial when it exercises a split header, a multi-frame
@@ -169,4 +208,9 @@ Definition nontrivial (c : case) : bool :=
   | CPack n _ => true
   | CServer e _ _ => 1 <? N.of_nat (length e)
   | CUnpack n _ parses _ => negb parses
+  | CDoq _ _ _ gs sizes _ _ _ _ =>
+    match gs with
+    | [SFrame n _] => boundary n || existsb (fun k => (k <=? 1)%nat) sizes
+    | _ => true
+    end
   end.
